@@ -17,7 +17,7 @@ import os
 import random
 import re
 
-from ..graph import Graph
+from ..graph import Graph, key as graph_key
 from ..tlc import MachineryError
 from .. import util
 
@@ -28,6 +28,8 @@ NAN = float('nan')
 UNIVERSE = [0, -7, 123456789,
             1.5, -0.0, 1e300, 1e-300, 0.1, 3.141592653589793, 1.2345678901234567e-05,
             2.0, -2.5e-07, -1e-05,
+            # 16 significant digits of these have no fraction left ('%.16g' prints no decimal point)
+            1.0000000000000002, -2251799813685248.5,
             INF, -INF, NAN,
             'abc', 'x_1']
 
@@ -38,14 +40,23 @@ _TOKS = [('7', 7), ('2.5', 2.5), ('k1', 'k1'), ('-3', -3), ('1e65', 1e65), ('Tes
          ('False', 'False'), ('4', 4), ('B', 'B'), ('6.0', 6.0), ('x', 'x'), ('-1.25E+3', -1250.0), ('77', 77)]
 
 
-def token(i):
+def token(i, chars=' '):
     if i in ANCHOR:
         return ANCHOR[i], ANCHOR[i]
-    return _TOKS[(i - 11) % len(_TOKS)]
+    text, val = _TOKS[(i - 11) % len(_TOKS)]
+    if '-' in chars and '-' in text:
+        # '-' is a delimiter: no field contains it
+        text, val = text.replace('-', ''), abs(val)
+    return text, val
 
 
+# delimiter sets of the scenarios (id in the spec -> characters, separators used in the rendered template,
+# separator handed to transfer_array for appended values).  3 and 4 hold characters that are special inside
+# a regular-expression character class.
 DELIMS = {1: {'chars': ' ', 'seps': [' ', '  '], 'sep': ' '},
-          2: {'chars': ', ', 'seps': [', ', ' ', ',', ' , '], 'sep': ', '}}
+          2: {'chars': ', ', 'seps': [', ', ' ', ',', ' , '], 'sep': ', '},
+          3: {'chars': ' ]', 'seps': [' ', ']', ' ] ', '] '], 'sep': ' '},
+          4: {'chars': ' -', 'seps': [' ', '-', ' - ', '  '], 'sep': ' '}}
 LEADS = ['', ' ', '  ']
 
 # benign values of the slots: used on the path to the source state and for the other elements of an array
@@ -53,6 +64,22 @@ BENIGN = {'mixed': {101: 0.1, 102: 'x_1', 103: -7},
           'float': {101: 0.1, 102: 1.5, 103: 2.0},
           'int': {101: 42, 102: -7, 103: 5},
           'str': {101: 'abc', 102: 'x_1', 103: 'q'}}
+
+
+def admissible(v, chars):
+    """The text of value v holds no delimiter character (only '-' can occur in the texts used here)."""
+    if '-' not in chars:
+        return True
+    if isinstance(v, str):
+        return '-' not in v
+    return math.copysign(1.0, v) > 0 and (v == 0 or v != v or abs(v) >= 1e-4)
+
+
+def benign(cls, chars):
+    env = BENIGN[cls]
+    if '-' in chars:
+        env = {k: (v if isinstance(v, str) else abs(v)) for k, v in env.items()}
+    return env
 
 
 def vclass(v):
@@ -72,7 +99,7 @@ def render(tmpl, delim, newline_at_end):
         for j, tid in enumerate(line):
             if j:
                 s += d['seps'][(i + j) % len(d['seps'])]
-            s += token(tid)[0]
+            s += token(tid, d['chars'])[0]
         if i < len(tmpl) - 1 or newline_at_end:
             s += '\n'
         lines.append(s)
@@ -125,7 +152,10 @@ def _call(gen, act, sep):
         v = act['value']
         if act.get('container') == 'ndarray':
             v = np.array(v)
-        gen.transfer_array(v, act['row'], act['fs'], act['fe'], sep=sep)
+        if act.get('re', act['row']) != act['row']:
+            gen.transfer_array(v, act['row'], act['fs'], act['fe'], row_end=act['re'], sep=sep)
+        else:
+            gen.transfer_array(v, act['row'], act['fs'], act['fe'], sep=sep)
     elif n == 'Transfer2DArray':
         gen.transfer_2Darray(np.array(act['value']), act['rs'], act['re'], act['fs'], act['fe'])
     elif n == 'ClearLine':
@@ -153,12 +183,17 @@ def execute(S, workdir):
     if os.path.exists(oname):
         os.remove(oname)
     chars, sep = S['delim'], S['sep']
-    reg = re.compile('[^' + chars + '\n]+')
+    reg = re.compile('[^' + re.escape(chars) + '\n]+')
     gen = InputFileGenerator()
     gen.set_template_file(tname)
     gen.set_generated_file(oname)
-    gen.set_delimiters(chars)
     steps = S['steps']
+    try:
+        gen.set_delimiters(chars)
+    except Exception as e:       # noqa
+        info = {'action': steps[-1], 'cand': S.get('cand'), 'delim': chars,
+                'exc': '%s: %s' % (type(e).__name__, e)}
+        return ('delimiters-rejected', {'exception': info['exc']}, info)
     for act, pre in zip(steps[:-1], S['pre']):
         try:
             _call(gen, act, sep)
@@ -175,7 +210,7 @@ def execute(S, workdir):
     act = steps[-1]
     exp = S['exp']
     info = {'action': act, 'cand': S.get('cand'), 'overflow': S.get('overflow', False),
-            'row_is_last': S.get('row_is_last', False)}
+            'row_is_last': S.get('row_is_last', False), 'delim': chars}
     # 1. the operation itself
     try:
         _call(gen, act, sep)
@@ -255,15 +290,20 @@ def execute(S, workdir):
     numeric = S.get('api_read', True) and act['n'] in ('TransferArray', 'Transfer2DArray') and \
         all(not isinstance(efile[r][f - 1], str) for r, f in exp['written'])
     if numeric and act['n'] == 'TransferArray':
-        r0 = exp['written'][0][0]
-        fs = min(f for _, f in exp['written'])
-        fe = max(f for _, f in exp['written'])
-        arr = par.transfer_array(r0, fs, fieldend=fe)
-        want = [efile[r0][f - 1] for f in range(fs, fe + 1)]
-        allint = all(isinstance(x, int) for x in want)
-        got = [plain(x) for x in arr]
-        if len(got) != len(want) or not all(same(w if allint else float(w), g) for w, g in zip(want, got)):
-            return ('array-read', {'transfer_array': [r0, fs, fe], 'obs': got, 'exp': want}, info)
+        # the spec's ReadArray: the written locations in (line, field) order are what the reader's
+        # transfer_array(first line, first field, last line, last field) returns
+        wr = sorted((r, f) for r, f in exp['written'])
+        (r0, fs), (r1, fe) = wr[0], wr[-1]
+        if all(efile[r] for r in range(r0, r1 + 1)):       # (FileParser refuses lines without fields)
+            if r1 != r0:
+                arr = par.transfer_array(r0, fs, rowend=r1, fieldend=fe)
+            else:
+                arr = par.transfer_array(r0, fs, fieldend=fe)
+            want = [efile[r][f - 1] for r, f in wr]
+            allint = all(isinstance(x, int) for x in want)
+            got = [plain(x) for x in arr]
+            if len(got) != len(want) or not all(same(w if allint else float(w), g) for w, g in zip(want, got)):
+                return ('array-read', {'transfer_array': [r0, fs, r1, fe], 'obs': got, 'exp': want}, info)
     if numeric and act['n'] == 'Transfer2DArray':
         rs = min(r for r, _ in exp['written'])
         re_ = max(r for r, _ in exp['written'])
@@ -328,18 +368,22 @@ def concretise(a, env, container='list'):
         return {'n': n, 'value': env[a['v']], 'row': a['row'], 'f': a['f']}
     if n == 'TransferArray':
         return {'n': n, 'value': [env[x] for x in a['vals']], 'container': container,
-                'row': a['row'], 'fs': a['fs'], 'fe': a['fe']}
+                'row': a['row'], 're': a.get('re', a['row']), 'fs': a['fs'], 'fe': a['fe']}
     if n == 'Transfer2DArray':
         return {'n': n, 'value': [[env[x] for x in row] for row in a['vals']],
                 'rs': a['rs'], 're': a['re'], 'fs': a['fs'], 'fe': a['fe']}
     return dict(a)
 
 
+def wrapped(a):
+    return a['n'] == 'TransferArray' and a.get('re', a['row']) != a['row']
+
+
 def slots_of(a):
     if a['n'] == 'TransferVar':
         return [a['v']]
     if a['n'] == 'TransferArray':
-        return list(a['vals'])
+        return sorted(set(a['vals']))
     if a['n'] == 'Transfer2DArray':
         return sorted(set(x for row in a['vals'] for x in row))
     return []
@@ -379,11 +423,12 @@ class Binder:
         scn = self.scen[sc - 1]
         delim = scn['delim']
         tmpl = scn['file']
-        conc = [[(x, token(x)[1]) for x in line] for line in tmpl]
-        raw = [[token(x)[0] for x in line] for line in tmpl]
+        chars = DELIMS[delim]['chars']
+        conc = [[(x, token(x, chars)[1]) for x in line] for line in tmpl]
+        raw = [[token(x, chars)[0] for x in line] for line in tmpl]
         steps, pre = [], []
         for (pa, pk, pr) in g.path[k]:
-            env = BENIGN['float'] if pa['n'] == 'Transfer2DArray' else BENIGN['mixed']
+            env = benign('float' if pa['n'] == 'Transfer2DArray' else 'mixed', chars)
             steps.append(concretise(pa, env))
             apply_spec(conc, raw, pr, env)
             pst = g.state[pk][1]
@@ -397,15 +442,15 @@ class Binder:
             cand = UNIVERSE[cand_idx]
             cls = vclass(cand)
             if a['n'] == 'Transfer2DArray':
-                env = dict(BENIGN[cls])
+                env = dict(benign(cls, chars))
             elif a['n'] == 'TransferArray' and cls == 'float' and (tid + cand_idx) % 2:
-                env = dict(BENIGN['float'])
+                env = dict(benign('float', chars))
                 container = 'ndarray'
             else:
-                env = dict(BENIGN['mixed'])
+                env = dict(benign('mixed', chars))
             env[slots[(tid + cand_idx) % len(slots)]] = cand
         else:
-            env = BENIGN['mixed']
+            env = benign('mixed', chars)
         act = concretise(a, env, container)
         steps.append(act)
         nfields_before = [len(ln) for ln in conc]
@@ -421,7 +466,8 @@ class Binder:
              'overflow': overflow,
              # the array readers (2-3 more pyparsing passes over lines already read field by field):
              # every run in the thorough tier, every third run in the quick tier
-             'api_read': self.tier != 'quick' or (tid + cand_idx) % 3 == 0,
+             # (always for the wrapped arrays: the multi-line reader is what the spec's ReadArray describes)
+             'api_read': self.tier != 'quick' or (tid + cand_idx) % 3 == 0 or wrapped(a),
              'row_is_last': bool(written) and written[0][0] == len(tmpl) - 1,
              'exp': {'res': r['r'], 'cur': tst['cur'], 'anch': tst['anch'],
                      'file': [[c[1] for c in ln] for ln in conc], 'raw': raw, 'written': written,
@@ -518,24 +564,41 @@ def pred_overflow_eol(scenario, info):
         info.get('action', {}).get('n') == 'TransferArray'
 
 
+def pred_delim_regex(scenario, info):
+    """set_delimiters puts the characters unescaped into a regular-expression character class: with ']' no
+    field matches any more (the write is silently dropped), a '-' in last position raises re.error."""
+    return any(c in (info.get('delim') or '') for c in ']-^\\') and \
+        info.get('clause') in ('delimiters-rejected', 'read-back', 'other-field', 'line-structure', 'array-read',
+                               'anchor-read', 'write-raises')
+
+
+def _int_text(v):
+    return isinstance(v, float) and v == v and abs(v) != INF and int(v) != v and \
+        ('%.16g' % v).lstrip('-').isdigit()
+
+
+def pred_float_int_token(scenario, info):
+    """a non-integral float whose 16 significant digits have no fraction is written without a decimal point
+    ('%.16g' gives '1' for 1.0000000000000002) and read back as an int."""
+    mm = [m for m in (info.get('mismatch') or []) if m.get('how') == 'transfer_var']
+    return info.get('clause') == 'read-back' and bool(mm) and \
+        all(_int_text(m['exp']) and isinstance(m['obs'], int) and not isinstance(m['obs'], bool) for m in mm)
+
+
 PREDICATES = {'C29-nonfinite-write-raises': pred_nonfinite_write,
               'C29-inf-written-unparsable': pred_inf_token,
               'C29-negative-exponent-float-split': pred_neg_exponent,
-              'C29-array-overflow-drops-newline': pred_overflow_eol}
+              'C29-array-overflow-drops-newline': pred_overflow_eol,
+              'C29-delimiter-regex-unescaped': pred_delim_regex,
+              'C29-float-16-digits-written-as-int': pred_float_int_token}
 
 
 # --------------------------------------------------------------------------------------------
 
-CHECK_CFG = '''CONSTANTS
-  Scenarios <- %s
-  MaxLen = 5
-  MaxDepth = %d
-INIT Init
-NEXT Next
-VIEW View
-INVARIANT TypeOK
+PROPS = '''INVARIANT TypeOK
 INVARIANT AddrSound
 PROPERTY ReadBack
+PROPERTY ArrayReadBack
 PROPERTY OthersUnchanged
 PROPERTY WritesWellFormed
 PROPERTY AnchorSemantic
@@ -543,21 +606,42 @@ PROPERTY RejectLeaves
 PROPERTY AnchorStable
 '''
 
+CHECK_CFG = '''CONSTANTS
+  Scenarios <- %s
+  MaxLen = 5
+  MaxDepth = %d
+  WrapRows <- %s
+INIT Init
+NEXT Next
+VIEW View
+INVARIANT TypeOK
+INVARIANT AddrSound
+PROPERTY ReadBack
+PROPERTY ArrayReadBack
+PROPERTY OthersUnchanged
+PROPERTY WritesWellFormed
+PROPERTY AnchorSemantic
+PROPERTY RejectLeaves
+PROPERTY AnchorStable
+'''
+
+# (the export runs check the properties too: the wrapped arrays are explored there, to the depth that is bound)
 EXPORT_CFG = '''CONSTANTS
   Scenarios <- %s
   MaxLen = 5
   MaxDepth = %d
+  WrapRows <- %s
 INIT Init
 NEXT XNext
 VIEW View
 INVARIANT ExportInit
-'''
+''' + PROPS
 
 
 def _replay(ctx):
     """./check C29 --replay <file>: the stored concrete scenario is executed again against the stored expectation
     (the spec's file state); TLC re-checks the spec's properties on a small bound."""
-    cfg = ctx.write_cfg('FileWrapMC.cfg', CHECK_CFG % ('TwoScenarios', 2))
+    cfg = ctx.write_cfg('FileWrapMC.cfg', CHECK_CFG % ('TwoScenarios', 2, 'WrapQuick'))
     ctx.tlc_check('mech/FileWrapMC', cfg, timeout=600, workers=int(os.environ.get('VERIF_TLC_WORKERS', '8')))
     with open(ctx.replay) as f:
         rec = json.load(f)
@@ -584,23 +668,33 @@ def run(ctx):
     quick = ctx.tier == 'quick'
     workers = int(os.environ.get('VERIF_TLC_WORKERS', '8'))
     # 1. the design: exhaustive check of the spec's own properties on all operation sequences
-    cfg = ctx.write_cfg('FileWrapMC.cfg', CHECK_CFG % (('TwoScenarios', 3) if quick else ('AllScenarios', 3)))
+    #    (plain operations to depth 3; the wrapped arrays are checked by the export runs below, to depth 2)
+    cfg = ctx.write_cfg('FileWrapMC.cfg', CHECK_CFG % (('TwoScenarios', 3, 'WrapNone') if quick else
+                                                       ('AllScenarios', 3, 'WrapNone')))
     ctx.tlc_check('mech/FileWrapMC', cfg, timeout=1500, workers=workers)
     ctx.require_actions(['Init', 'MarkAnchor', 'ResetAnchor', 'TransferVar', 'TransferArray', 'Transfer2DArray',
                          'ClearLine'])
     # 2. export every transition of the graph used for binding; 3. one implementation run per
     #    (transition, candidate value).  jobs: (scenarios, depth, only the deepest level with k seeded candidates)
-    jobs = [('TwoScenarios', 2, None)] if quick else [('AllScenarios', 2, None), ('DeepScenarios', 3, 2)]
+    #    wrapped (multi-line) arrays: WrapRows of the job, a seeded subset of the candidates per transition;
+    #    delimiter sets with regular-expression specials: every first operation on the template
+    if quick:
+        jobs = [('TwoScenarios', 2, None, 'WrapQuick'), ('DelimScenarios', 1, None, 'WrapQuick')]
+    else:
+        jobs = [('AllScenarios', 2, None, 'WrapAll'), ('DeepScenarios', 3, 2, 'WrapNone'),
+                ('DelimScenariosAll', 1, None, 'WrapAll')]
+    wrap_k = 5 if quick else 9
     rng = random.Random(ctx.seed)
     nu = len(UNIVERSE)
     res = []
     n_edges = n_states = 0
     tid = 0
-    for (scn_name, depth, deepest) in jobs:
-        cfg = ctx.write_cfg('FileWrapMC_export_%s_%d.cfg' % (scn_name, depth), EXPORT_CFG % (scn_name, depth))
+    n_wrapped = 0
+    for (scn_name, depth, deepest, wrap) in jobs:
+        cfg = ctx.write_cfg('FileWrapMC_export_%s_%d.cfg' % (scn_name, depth), EXPORT_CFG % (scn_name, depth, wrap))
         x = ctx.tlc_run('mech/FileWrapMC', cfg, coverage=False, timeout=1500, heap='12g', workers=workers)
-        if x.error or not x.finished:
-            raise MachineryError('export failed:\n' + x.tail())
+        if x.violated or x.assume_false or x.error or not x.finished:
+            raise MachineryError('export / property check of the bound graph failed:\n' + x.tail())
         scen = x.exports('SCN')
         if len(scen) < 1:
             raise MachineryError('no scenario export')
@@ -611,8 +705,39 @@ def run(ctx):
             raise MachineryError('export incomplete: %d edges printed, %d transitions generated'
                                  % (len(edges), x.generated - len(inits)))
         del x
-        g = Graph(edges, inits)
-        del edges
+        # the bound graph: every state that the plain operations reach (shortest paths of plain operations),
+        # every plain transition, and every wrapped-array transition that leaves one of these states
+        for e in edges:
+            e['kf'], e['kt'] = graph_key(e['sc'], e['f']), graph_key(e['sc'], e['t'])
+        succ = {}
+        for e in edges:
+            if not wrapped(e['a']):
+                succ.setdefault(e['kf'], set()).add(e['kt'])
+        # (the state key has no operation count: a state that plain operations reach with the last operation
+        #  of the bound may also be reached earlier through a wrapped array and then has successors in the
+        #  export; the sources of the bound graph are the states plain operations reach in < depth steps)
+        level = [set(graph_key(i['sc'], i['f']) for i in inits)]
+        plain = set(level[0])
+        for _ in range(depth - 1):
+            nxt = set()
+            for kf in level[-1]:
+                nxt |= succ.get(kf, set()) - plain
+            plain |= nxt
+            level.append(nxt)
+        g = Graph([e for e in edges if not wrapped(e['a']) and e['kf'] in plain], inits)
+        if max(len(pth) for pth in g.path.values()) > depth:
+            raise MachineryError('bound graph deeper than the bound')
+        seen = set()
+        for e in edges:
+            if not wrapped(e['a']):
+                continue
+            kf, kt = e['kf'], e['kt']
+            ek = (kf, json.dumps(e['a'], sort_keys=True))
+            if kf in plain and ek not in seen:
+                seen.add(ek)
+                g.state.setdefault(kt, (e['sc'], e['t']))
+                g.adj.setdefault(kf, []).append((e['a'], kt, e.get('r')))
+        del edges, seen, succ, plain, level
         tasks = []
         for k in g.path:
             if deepest is not None and len(g.path[k]) < depth - 1:
@@ -622,12 +747,17 @@ def run(ctx):
                     continue        # as a last step the slots 101/102 give the same concrete runs
                 tid += 1
                 n_edges += 1
+                chars = DELIMS[scen[g.state[k][0] - 1]['delim']]['chars']
+                adm = [i for i in range(nu) if admissible(UNIVERSE[i], chars)]
                 if not slots_of(a):
                     cands = [0]
-                elif deepest is None:
-                    cands = list(range(nu))
+                elif deepest is not None:
+                    cands = sorted(rng.sample(adm, deepest))
+                elif wrapped(a):
+                    cands = sorted(rng.sample(adm, wrap_k))
                 else:
-                    cands = sorted(rng.sample(range(nu), deepest))
+                    cands = adm
+                n_wrapped += wrapped(a)
                 tasks.append((k, ei, tid, cands))
             n_states += 1
         rng.shuffle(tasks)
@@ -641,6 +771,7 @@ def run(ctx):
         del g, tasks
     ctx.extra['graph_states'] = n_states
     ctx.extra['graph_transitions'] = n_edges
+    ctx.extra['graph_transitions_wrapped_array'] = n_wrapped
     n = sum(o['n'] for o in res)
     skipped = sum(o['skipped'] for o in res)
     by_action = {}
